@@ -248,6 +248,15 @@ value cached at the moment of the call -/
 def CallsMergeCurrent (merge : J → V → Option V) (s : ChangeSection.CState J V) : Prop :=
   ∀ c ∈ s.calls, merge c.payload c.current = some c.value
 
+/-- the requests of a run are handled one at a time: a request begins only when none is being handled and is finished
+by the thread that began it (`b`: who is handling a request at the start).  This is what lets the sequential model —
+one request = one atomic step, `HistoryOK` — speak about a node with several connections. -/
+def OneAtATime : Option Nat → List (ChangeSection.Act J V) → Prop
+  | _, [] => True
+  | b, .begin t :: r => b = none ∧ OneAtATime (some t) r
+  | b, .finish t :: r => b = some t ∧ OneAtATime none r
+  | b, _ :: r => OneAtATime b r
+
 section c01merge
 variable {F : Type} [FloatOps F]
 
